@@ -510,8 +510,10 @@ func (c *FuncCtx) specBuiltin(st *State, name string, x *ast.CallExpr) ([]*Val, 
 		st.guard = append(st.guard, l.S)
 		r := c.eval(st, x.Args[1])
 		st.guard = st.guard[:len(st.guard)-1]
-		if r.SA != "" {
-			return []*Val{{T: tBool, S: mkImplies(l.S, r.S), SA: mkImplies(l.S, r.SA), Sort: "Bool"}}, true
+		if r.SA != "" || l.SA != "" {
+			// polarity: as a goal the hypothesis is assumed (its assumption
+			// form), as an assumption the hypothesis has to be established
+			return []*Val{{T: tBool, S: mkImplies(l.forAssume(), r.S), SA: mkImplies(l.S, r.forAssume()), Sort: "Bool"}}, true
 		}
 		return b(mkImplies(l.S, r.S)), true
 	case "iff":
@@ -1411,6 +1413,23 @@ func (c *FuncCtx) applyContract(st *State, con *Contract, sig *types.Signature, 
 			st.bound["$oldparam:"+pname] = pre
 			st.bound[pname] = nv
 		}
+	}
+	// a call written inside a specification: the callee's postconditions are
+	// assumed for it, but calls nested inside those postconditions only get
+	// their result term (a recursive pure function would otherwise unfold for ever)
+	if (specCall && c.specPostDepth > 0) || (con.Pure && key == c.key) {
+		// (the function under verification calling itself, or mentioning
+		// itself in its own contract, only needs the result term)
+		st.bound = saved
+		st.old = savedOld
+		if len(results) == 1 {
+			return results
+		}
+		return results
+	}
+	if specCall {
+		c.specPostDepth++
+		defer func() { c.specPostDepth-- }()
 	}
 	for _, cl := range con.clauses("ensures") {
 		v := c.eval(st, cl.Expr)
